@@ -20,7 +20,7 @@ ASSUMPTIONS = [
     'BufRead::consume/fill_buf of the reader are the subject of C04',
 ]
 MANIFEST = {'text': 'proof of: reader and writer agree on size, flag bit and order of every optional header part and both parsers slice payload/additional header/consumed bytes with their framing constant; '
-                    'the iterator counts exactly what it consumes and skips, numbers only delivered messages, and latches the framing only on success. Added: before any framing is latched every position is tried with the storage parser before the serial parser sees it.'}
+                    'the iterator counts exactly what it consumes and skips, numbers only delivered messages, and latches the framing only on success. Added: before any framing is latched every position is tried with the storage parser before the serial parser sees it. Added: the reader tables are computed through constant lookup tables as well (the driver records integer array constants). Added: a parser answers NotEnoughData only under a guard that says the buffer is shorter than the message (N < framing + minimal header, or N < framing + stdh.len), decided on linear forms over the buffer length. Added: DltChar4::from_buf - the constructor of every ECU id / APID / CTID read - stores the four bytes verbatim.'}
 
 IT = 'adlt::utils::dltmessageiterator::DltMessageIterator'
 
@@ -36,6 +36,8 @@ def run(F, chk):
     for b in nexts:
         check_iterator(b, K1, K2, K3, F)
     K3.floor('serial parse attempts reached (states)', K3.sites, 1)
+    K4 = chk.rule('K4', 'id bytes: DltChar4::from_buf (the constructor every reader uses for ECU id, APID, CTID) stores buf[0..4] verbatim and in order')
+    hdrtab.check_id_bytes_verbatim(F, K4)
 
 
 def check_iterator(b, K1, K2, K3=None, F=None):
